@@ -397,7 +397,36 @@ fn trace_action(m: usize) -> Action {
     }
 }
 
+/// Real-time runs only: how late the runtime's timers fire under the machine's current load.  A
+/// task sleeps `RESEND_DELAY` over and over and records (log time of the wake-up, lateness); the
+/// budget clauses of the multi_thread oracle add the lateness measured during a resolution to
+/// their slack, so that an overloaded machine is not mistaken for an over-long retry loop.
+/// (Process-wide: a worker process runs one scenario at a time.  Kept out of the event log, which
+/// must fall quiet for the run to end.)
+static PROBE: Mutex<Vec<(u64, u64)>> = Mutex::new(Vec::new());
+
+fn probe_action() -> Action {
+    Action {
+        at: Some(0),
+        kind: custom(move |ctx: Ctx| {
+            Box::pin(async move {
+                let log = ctx.log.clone();
+                tokio::spawn(async move {
+                    loop {
+                        let t0 = tokio::time::Instant::now();
+                        tokio::time::sleep(Arp::RESEND_DELAY).await;
+                        let late = t0.elapsed().saturating_sub(Arp::RESEND_DELAY).as_micros() as u64;
+                        PROBE.lock().unwrap().push((log.now_us(), late));
+                    }
+                });
+            })
+        }),
+    }
+}
+
 struct Observed {
+    /// (wake-up time, lateness) samples of the timer probe (real-time runs)
+    probe: Vec<(u64, u64)>,
     events: Vec<Event>,
     macs: Vec<Vec<u64>>,
     /// per machine: (local ips with subnet info, table)
@@ -411,6 +440,9 @@ fn execute(case: &Case, mode: RtMode) -> Observed {
         .enumerate()
         .map(|(m, k)| {
             let mut script = vec![trace_action(m)];
+            if m == 0 && mode != RtMode::Paused {
+                script.push(probe_action());
+            }
             script.extend(case.claims.iter().filter(|c| c.m == m).map(claim_action));
             script.extend(case.resolves.iter().filter(|r| r.m == m).map(resolve_action));
             // resolutions through IPv4: the route of the local address names the slot and no MAC
@@ -446,6 +478,7 @@ fn execute(case: &Case, mode: RtMode) -> Observed {
             Plan::Dup(d) => VerifFramePlan::Duplicate(Duration::from_micros(d)),
         }
     });
+    PROBE.lock().unwrap().clear();
     // real-time runs end once the log has been quiet for longer than a retry round
     let quiesce = mode != RtMode::Paused;
     let built = build(&sc, Some(planner), &|idx, m, log| {
@@ -478,7 +511,8 @@ fn execute(case: &Case, mode: RtMode) -> Observed {
             )
         })
         .collect();
-    Observed { events: built.log.snapshot(), macs: built.macs, snaps }
+    let probe = PROBE.lock().unwrap().clone();
+    Observed { probe, events: built.log.snapshot(), macs: built.macs, snaps }
 }
 
 // ------------------------------------------------------------------------------------------
@@ -965,6 +999,9 @@ fn run_case_mt(case: &Case, workers: usize) -> CaseReport {
     let mut learned: Vec<(u64, usize, u32, u64)> = vec![];
     let sess = sess_macs(&obs.events);
     let slack = 400_000u64; // scheduling slack on a loaded machine, in real microseconds
+    // ... plus twice the timer lateness the probe measured while the resolution was running
+    let lag = |from: u64, to: u64| -> u64 { 2 * obs.probe.iter().filter(|(t, _)| *t >= from && *t <= to + delay_us()).map(|(_, l)| *l).sum::<u64>() };
+    rep.count_n("probe.late_ms", obs.probe.iter().map(|(_, l)| *l).sum::<u64>() / 1000);
     for e in &obs.events {
         let t = e.t_us;
         match &e.ev {
@@ -1031,7 +1068,7 @@ fn run_case_mt(case: &Case, workers: usize) -> CaseReport {
         match &st.done {
             None => {
                 summary.push(format!("r{}=pending", rid));
-                if end_t > st.start_t + budget_us() + 2 * slack {
+                if end_t > st.start_t + budget_us() + 2 * slack + lag(st.start_t, end_t) {
                     fails.push((format!("{} started at {} us has not returned at {} us (budget {} us)", desc, st.start_t, end_t, budget_us()), "hang".into()));
                 }
             }
@@ -1044,15 +1081,15 @@ fn run_case_mt(case: &Case, workers: usize) -> CaseReport {
                         if who.is_empty() { "ok-for-unclaimed".into() } else { "wrong-mac".into() },
                     ));
                 }
-                if *t > st.start_t + budget_us() + slack {
+                if *t > st.start_t + budget_us() + slack + lag(st.start_t, *t) {
                     fails.push((format!("{} returned after {} us, beyond the retry budget", desc, t - st.start_t), "late-answer".into()));
                 }
             }
             Some((Err(()), t)) => {
                 summary.push(format!("r{}=err", rid));
                 rep.count("result.err");
-                if *t > st.start_t + budget_us() + slack {
-                    fails.push((format!("{} failed after {} us, beyond the retry budget of {} us", desc, t - st.start_t, budget_us()), "late-failure".into()));
+                if *t > st.start_t + budget_us() + slack + lag(st.start_t, *t) {
+                    fails.push((format!("{} failed after {} us, beyond the retry budget of {} us (timer lateness measured meanwhile: {} us)", desc, t - st.start_t, budget_us(), lag(st.start_t, *t) / 2), "late-failure".into()));
                 }
                 if who.len() == 1 {
                     // the owner's mapping reached the machine clearly before the call gave up
@@ -1457,7 +1494,7 @@ const RULE: &str = "LANs of 2..12 machines (1-2 taps), 1-3 claimed addresses eac
 
 const RULE_IP: &str = "resolutions triggered THROUGH the IPv4 layer (Ipv4::open_for_sending or Udp::open_and_listen on a machine with ARP and a MAC-less /32 route for the local address; direct Arp::resolve as control): (1) systematically, for each way, every position of the retry budget: only the k-th request/reply exchange gets through for k = 1..=RESEND_TRIES, and none, the earlier rounds losing the request or the reply; (2) generated cases of that family (k biased to the ends of the budget, latency 0..99 ms, start time, 2..4 machines, SubnetInfo, per-round choice of which frame is lost, optionally a second resolver on another machine after the first budget); (3) the generated LANs of the main run with every resolution through IPv4; outcome and completion instant of the open call are compared with the model's `resolve` (replay) and with what the configuration prescribes (Ok(owner) at start + (k-1)*RESEND_DELAY + 2*latency, Err at start + RESEND_TRIES*RESEND_DELAY, never earlier); the MAC is the destination of a datagram sent through the opened session; non-trivial = as in the main run, or any case of the k-th-exchange family; distinct = hash of the configuration lines";
 
-const RULE_MT: &str = "the generator of the main run restricted to claims made before the barrier, <= 5 calls within the first 300 ms, loss 0/20/50 %, on tokio multi_thread runtimes with 2/4/16 workers in real time (run ends when the log is quiet); oracle only (owner's MAC, never an unclaimed address, only owners announce, budget respected with 0.4 s scheduling slack, claimed + loss-free => Ok, agreement); non-trivial = >= 2 calls and an Ok answer";
+const RULE_MT: &str = "the generator of the main run restricted to claims made before the barrier, <= 5 calls within the first 300 ms, loss 0/20/50 %, on tokio multi_thread runtimes with 2/4/16 workers in real time (run ends when the log is quiet); oracle only (owner's MAC, never an unclaimed address, only owners announce, budget respected with 0.4 s scheduling slack plus twice the timer lateness a probe task measured during the resolution, claimed + loss-free => Ok, agreement); non-trivial = >= 2 calls and an Ok answer";
 
 fn case_of_spec(spec: &str) -> Option<Case> {
     if spec.starts_with("replay") {
